@@ -34,21 +34,24 @@ CFGS = {
                    MaxN="6", MaxSeq="3", MaxBatches="2", MaxPk="2", TreasuryAddr='"treasury"', RcvKinds='{"self"}', MaxTime="5"),
     # ---------------------------------------------------------------- thorough tier: focused extensions, one dimension each
     "flow_long_t": dict(Returns='{"exact", "long"}', MaxN="8"),
-    "flow_resume_t": dict(ResumeScales='{"same", "down", "up"}', Returns='{"exact"}', MaxN="8"),
+    "flow_resume_t": dict(ResumeScales='{"same", "down", "up"}', Returns='{"exact"}', RcvKinds='{"self"}', RewardAmts="{}"),
     "flow_amounts_t": dict(StakeAmts="{3, 5}", UnstakeAmts="{2, 3}", MaxN="8", Returns='{"exact", "short"}'),
     "flow_extras_t": dict(Extras='{"wrongsender", "slippage", "mintto", "direct"}', Principals='{"u1", "admin", "mon1"}'),
     "flow_time_t": dict(MaxTime="9", MaxBatches="3", BatchPeriod="2", Unbonding="3", Returns='{"exact"}', RcvKinds='{"self"}'),
     "flow_t": dict(Users='{"u1", "u2"}', MaxN="6", MaxSeq="3", Returns='{"exact", "short"}', RcvKinds='{"self"}', Principals='{"u1", "admin"}'),
     "flow_treasury_t": dict(Users='{"u1", "u2"}', TreasuryAddr='"treasury"', OracleAddr='""', MaxN="6", MaxSeq="3", Returns='{"exact"}', RcvKinds='{"self"}'),
-    "fees_t": dict(Extras='{"toggle"}', UnstakeAmts="{2}", RewardAmts="{2, 5}", RcvKinds='{"self"}', Returns='{"exact"}', MaxBatches="2",
-                   MaxN="10", MaxSeq="5", MaxPk="3", MaxTime="6", Principals='{"admin", "u1", "mon1"}'),
+    "fees_t": dict(Extras='{"toggle"}', UnstakeAmts="{}", RewardAmts="{2, 5, 7}", RcvKinds='{"self"}', Returns="{}", MaxBatches="1",
+                   MaxN="12", MaxSeq="5", MaxPk="5", MaxTime="0", Principals='{"admin", "u1", "mon1"}'),
     "ibc_t": dict(Extras='{"stray", "wrongsender"}', Outcomes='{"ok", "err", "timeout"}', SubmitFails="{0, 1}", Returns='{"exact"}',
-                  UnstakeAmts="{3}", MaxBatches="2", MaxN="6", MaxSeq="5", MaxPk="3", MaxTime="4", Principals='{"u1", "admin", "mon1"}'),
+                  UnstakeAmts="{3}", RewardAmts="{2}", MaxBatches="1", MaxN="6", MaxSeq="5", MaxPk="3", MaxTime="0", Principals='{"u1", "admin", "mon1"}'),
     "ibc2_t": dict(Extras='{"stray"}', Outcomes='{"ok", "err", "timeout"}', SubmitFails="{0}", Returns='{"exact"}', Users='{"u1", "u2"}',
                    UnstakeAmts="{3}", RewardAmts="{}", MaxBatches="1", MaxN="6", MaxSeq="4", MaxPk="3", MaxTime="0"),
-    "gate_t": dict(Extras='{"wrongsender", "matrixadmin", "direct", "stray"}', StartHalted="TRUE", Principals='{"u1", "admin", "mon1", "admin2"}',
-                   Returns='{"exact"}', MaxN="6", MaxSeq="3", MaxBatches="2", MaxPk="2", TreasuryAddr='"treasury"', RcvKinds='{"self"}', MaxTime="5",
+    "gate_t": dict(Extras='{"wrongsender", "matrix", "direct", "stray"}', StartHalted="TRUE", Principals='{"u1", "u2", "admin", "mon1", "mon2", "admin2", "treasury"}',
+                   Returns='{"exact"}', MaxN="6", MaxSeq="3", MaxBatches="2", MaxPk="2", TreasuryAddr='"treasury"', RcvKinds='{"self", "native"}', MaxTime="5",
                    ResumeScales='{"same", "down", "up"}'),
+    # the admin-only messages by EVERY principal including the admin (state-changing): small value flow
+    "gateadmin_t": dict(Extras='{"matrixadmin"}', StartHalted="TRUE", Principals='{"u1", "admin", "mon1", "admin2"}', UnstakeAmts="{}", RewardAmts="{}",
+                        Returns="{}", MaxN="3", MaxSeq="2", MaxBatches="1", MaxPk="1", TreasuryAddr='"treasury"', RcvKinds='{"self"}', MaxTime="0"),
 }
 
 def write(name, over, emit):
